@@ -1193,14 +1193,15 @@ func (app *App) enableSemiSyncOnSlave(host string, slaveState, masterState *node
 	if node == nil {
 		return fmt.Errorf("host %s is not a registered cluster host", host)
 	}
+	if masterState == nil || masterState.MasterState == nil || slaveState == nil || slaveState.SlaveState == nil {
+		// probe of the master or of the replica was incomplete in this iteration:
+		// do not touch the replica, it will not be published as active
+		return fmt.Errorf("gtid state of master or replica %s is unknown", host)
+	}
 	err := node.SemiSyncSetSlave()
 	if err != nil {
 		app.logger.Error().Err(err).Msgf("failed to enable semi_sync_slave on %s", host)
 		return err
-	}
-	if masterState == nil || masterState.MasterState == nil || slaveState == nil || slaveState.SlaveState == nil {
-		// probe of the master or of the replica was incomplete in this iteration
-		return fmt.Errorf("gtid state of master or replica %s is unknown", host)
 	}
 	masterGtidSet := gtids.ParseGtidSet(masterState.MasterState.ExecutedGtidSet)
 	slaveGtidSet := gtids.ParseGtidSet(slaveState.SlaveState.ExecutedGtidSet)
